@@ -329,9 +329,9 @@ def run_case(case):
             if vtag:
                 nontrivial = True
                 labels.add('tag-in-front-and-tagged-value')
-        # '!new' in front is the documented way to allow a new path; any other tag in front takes the place of the default '!notnew'
-        # (it is the tag of the value), so that nothing forbids creation then
-        creation_allowed = prefix in ('!new', '!force')
+        # '!new' in front is the documented way to allow a new path; any other tag in front is the tag of the value (or, for a value with
+        # a tag of its own, a flag of the generated document besides the default '!notnew'): a mistyped path stays an error
+        creation_allowed = prefix == '!new'
         labels.add('break=' + case['break'])
         if any(isinstance(c, int) for c in path):
             labels.add('index-component')
